@@ -175,6 +175,12 @@ def run(pid, tier, selftest, assumptions):
             docs.append((a2mlgen.document(a2mlgen.render(decls), blocks), False))
             meta.append({"e": "ifdata-described", "pat": {"fam": "ifdata-described", "cmt": f"{per_line} per line"}, "file_level_comment": False})
     a2mlgen.PER_LINE[0] = 6
+    # float members with literals outside the range of f32 (finite as f64): they do not fit the member, the block goes through
+    # uninterpreted and its tokens stay as they are
+    big = [("MODULE", ["/begin", "FLOATS", "1e39", "-7.5e40", "3.5e38", "1.5", "/end", "FLOATS"]),
+           ("MEASUREMENT", ["MIXED", "60", "3.5e38", "8598980006.9", "-5", "1e39", '"abc"', "1e300"])]
+    docs.append((a2mlgen.document(a2mlgen.render(fixed[0]), big), False))
+    meta.append({"e": "ifdata-described", "pat": {"fam": "ifdata-described", "cmt": "float beyond f32"}, "file_level_comment": False})
     if pid in ("C01", "C02", "C05"):
         # the raw A2ML text with every kind of head behind /begin A2ML (tab, blank, line break) and with comments that hold
         # /end, /begin or an unbalanced comment opener
@@ -188,11 +194,13 @@ def run(pid, tier, selftest, assumptions):
                 t = a2mlgen.document(body, [("MODULE", ["X", "7"]), ("MEASUREMENT", ["X", "0x10"])])
                 docs.append((t.replace("\n", "\r\n") if crlf else t, False))
                 meta.append({"e": "a2ml-head", "pat": {"fam": "a2ml-head", "cmt": name + ("/crlf" if crlf else "")}, "file_level_comment": False})
-    if pid == "C01":
+    if pid in ("C01", "C02", "C05"):
         # the raw A2ML text with every kind of tail in front of /end A2ML (blank lines, blanks, no line break, CRLF)
         body = '\n      block "IF_DATA" taggedunion { "X" struct { uint; }; };'
         for name, tail in (("newline", "\n"), ("blank-lines", "\n\n\n"), ("blank-lines-indent", "\n\n      "), ("same-line", " "),
                            ("two-newlines", "\n\n"), ("tabs", "\n\t\t")):
+            if pid == "C05" and name == "same-line":
+                continue            # C05 is about A2ML blocks whose /end stands on a line of its own
             for crlf in (False, True):
                 t = a2mlgen.document(body + tail, [("MODULE", ["X", "7"]), ("MEASUREMENT", ["X", "0x10"])])
                 docs.append((t.replace("\n", "\r\n") if crlf else t, False))
